@@ -76,9 +76,13 @@ fn data_truncated(c: usize) {
         g::G.rx_closed = true;
     }
     let r = e.recv_data(8);
-    kani::cover!(r.is_ok());
-    if let Ok((n, _)) = &r {
-        assert!(*n == c && *n < 8, "C08: a truncated body is reported short (callers turn that into an error)");
+    kani::cover!(r.is_ok() || r.is_err());
+    match &r {
+        Ok((n, _)) => assert!(*n == c && *n < 8, "C08: a truncated body is reported short (callers turn that into an error)"),
+        // recv_data reads the body of a message whose header has been consumed: the stream ending here is
+        // never at a message boundary
+        Err(Error::Disconnected) => assert!(false, "C08: 'disconnected' only at a message boundary (not while reading a message body)"),
+        Err(_) => {}
     }
     std::mem::forget(r);
 }
@@ -176,6 +180,9 @@ fn body_truncated(c: usize) {
     let r = e.recv_body::<VhostUserU64>();
     kani::cover!(r.is_err());
     assert!(r.is_err(), "C08: a truncated reply must be an error");
+    if c > 0 {
+        assert!(!matches!(&r, Err(Error::Disconnected)), "C08: 'disconnected' only at a message boundary");
+    }
     std::mem::forget(r);
 }
 fn send_partial(a: usize) {
